@@ -2,6 +2,7 @@ package props
 
 import (
 	"fmt"
+	"github.com/vedadiyan/genql"
 
 	"verifharness/internal/fw"
 	"verifharness/internal/gen"
@@ -26,7 +27,7 @@ func init() {
 			"LIKE patterns contain no backslash; non-ASCII characters in data are caseless, so ASCII folding is the case-insensitivity asserted",
 			"numeric literals are rendered without exponent; the reference model (internal/ref) is trusted",
 		},
-		Floor:         featList("op.eq", "op.ne", "op.lt", "op.le", "op.gt", "op.ge", "and", "or", "not", "in", "notin", "in.subquery", "between", "notbetween", "like", "notlike", "isnull", "isnotnull", "istrue", "isfalse", "law.partition", "law.notin", "law.between", "native-int", "in.subquery.correlated", "naming.alias", "naming.alias-unqualified", "naming.table-qualified"),
+		Floor:         featList("op.eq", "op.ne", "op.lt", "op.le", "op.gt", "op.ge", "and", "or", "not", "in", "notin", "in.subquery", "between", "notbetween", "like", "notlike", "isnull", "isnotnull", "istrue", "isfalse", "law.partition", "law.notin", "law.between", "native-int", "in.subquery.correlated", "naming.alias", "naming.alias-unqualified", "naming.table-qualified", "const.spelled", "opt.idiomatic-arrays"),
 		MinNontrivial: 50,
 		Phases: []fw.Phase{
 			{Name: "pred", N: func(t fw.Tier) int { return pick(t, 16000, 600000) }, Run: c01Pred},
@@ -61,10 +62,73 @@ func c01Tables(c *fw.Case) (*gen.Table, *gen.Table) {
 	return t, o
 }
 
-func c01Render(c *fw.Case, p gen.Pred, alias string) (string, []string) {
+func c01Render(c *fw.Case, p gen.Pred, alias string, numText ...map[float64]string) (string, []string) {
 	var feats []string
 	ro := gen.RenderOpts{Quote: gen.Quoting(c.Intn(2)), StrStyle: c.Intn(2), MinParens: c.Chance(0.3), Features: &feats, Qualifier: alias}
+	if len(numText) > 0 {
+		ro.NumText = numText[0]
+	}
 	return gen.RenderPred(p, ro), feats
+}
+
+// c01Spellings: numeric constants whose text is not what the number prints as.
+var c01Spellings = []struct {
+	text string
+	v    float64
+}{{"1.50", 1.5}, {"1000000", 1000000}, {"007", 7}, {"1e3", 1000}, {"2.0", 2}, {"0.50", 0.5}, {"10.00", 10}, {"12345678", 12345678}, {"1E2", 100}, {".5", 0.5}}
+
+// c01Twin puts one statement's string constant and numeric constant under the
+// same spelling: s1 holds the text (and what the number prints as), n1 holds
+// the number, and the predicate names both constants, in separate atoms.
+func c01Twin(c *fw.Case, t *gen.Table, g *gen.PredGen, rest gen.Pred) (gen.Pred, map[float64]string) {
+	sp := gen.Pick(c.R, c01Spellings)
+	printed := fmt.Sprint(sp.v)
+	for _, row := range t.Rows {
+		switch c.Intn(4) {
+		case 0:
+			row["s1"] = sp.text
+		case 1:
+			row["s1"] = printed
+		}
+		if c.Chance(0.5) {
+			row["n1"] = sp.v
+		}
+	}
+	var a, b gen.Pred
+	switch c.Intn(4) {
+	case 0:
+		a = gen.Cmp{L: gen.Operand{IsCol: true, Col: "s1"}, Op: gen.Pick(c.R, []string{"=", "!=", "<", ">="}), R: gen.Operand{Lit: sp.text}}
+	case 1:
+		a = gen.In{Col: "s1", Items: []any{sp.text}, Neg: c.Chance(0.5)}
+	case 2:
+		a = gen.Like{Col: "s1", Pattern: sp.text, Neg: c.Chance(0.3)}
+	default:
+		a = gen.Cmp{L: gen.Operand{Lit: sp.text}, Op: "=", R: gen.Operand{IsCol: true, Col: "s1"}}
+	}
+	switch c.Intn(3) {
+	case 0:
+		b = gen.Cmp{L: gen.Operand{IsCol: true, Col: "n1"}, Op: gen.Pick(c.R, []string{"=", "!=", "<", ">="}), R: gen.Operand{Lit: sp.v}}
+	case 1:
+		b = gen.Between{Col: "n1", Lo: sp.v, Hi: sp.v, Neg: c.Chance(0.3)}
+	default:
+		b = gen.In{Col: "n1", Items: []any{sp.v}, Neg: c.Chance(0.3)}
+	}
+	if c.Chance(0.5) {
+		a, b = b, a
+	}
+	var p gen.Pred
+	switch c.Intn(3) {
+	case 0:
+		p = gen.And{A: a, B: b}
+	case 1:
+		p = gen.Or{A: a, B: b}
+	default:
+		p = gen.Not{A: gen.Or{A: a, B: b}}
+	}
+	if c.Chance(0.3) {
+		p = gen.Or{A: p, B: rest}
+	}
+	return p, map[float64]string{sp.v: sp.text}
 }
 
 func c01Pred(c *fw.Case) {
@@ -89,6 +153,10 @@ func c01Pred(c *fw.Case) {
 		}
 	}
 	p := g.Gen()
+	var numText map[float64]string
+	if c.Idx%50 == 17 || (g.Force == "" && c.Chance(0.03)) {
+		p, numText = c01Twin(c, t, g, p)
+	}
 	alias, qualifier := "", ""
 	switch naming {
 	case "alias":
@@ -98,7 +166,7 @@ func c01Pred(c *fw.Case) {
 	case "table-qualified":
 		qualifier = "t1"
 	}
-	where, feats := c01Render(c, p, qualifier)
+	where, feats := c01Render(c, p, qualifier, numText)
 	sql := "SELECT * FROM t1 WHERE " + where
 	if alias != "" {
 		sql = "SELECT * FROM t1 x WHERE " + where
@@ -127,9 +195,15 @@ func c01Pred(c *fw.Case) {
 		nativize(c, doc["t1"].([]any), gen.Pick(c.R, []string{"n1", "n2"}))
 		feats = append(feats, "native-int")
 	}
-	o := Run(doc, sql)
+	var opts []genql.QueryOption
+	if c.Idx%50 == 29 || c.Chance(0.05) {
+		// the array-literal rewrite leaves every constant as it is
+		opts = append(opts, genql.IdomaticArrays())
+		feats = append(feats, "opt.idiomatic-arrays")
+	}
+	o := Run(doc, sql, opts...)
 	c.Feature(feats...)
-	sample := map[string]any{"sql": sql, "table_rows": len(t.Rows), "expected_rids": ridsOfRows(want)}
+	sample := map[string]any{"sql": sql, "table_rows": len(t.Rows), "expected_rids": ridsOfRows(want), "options": len(opts)}
 	c.Sample(sample)
 	detail := func() map[string]any {
 		return map[string]any{"sql": sql, "doc": doc, "expected_rids": ridsOfRows(want), "observed": o.Describe()}
